@@ -329,7 +329,7 @@ class TLSpectrum(np.ma.masked_array):
         if self.folded:
             raise ValueError('Input Spectrum is already folded.')
         ns = self.shape[0] - 1
-        folded = 0*self
+        folded = 1*self
         for ii in range(ns+1):
             for jj in range(ns+1):
                 for kk in range(ns+1):
@@ -339,15 +339,18 @@ class TLSpectrum(np.ma.masked_array):
                     q = ii + kk
                     if p > ns/2 and q > ns/2:
                         # Switch A/a and B/b, so AB becomes ab, Ab becomes aB, etc
-                        folded[ns-ii-jj-kk,kk,jj] = self[ns-ii-jj-kk,kk,jj] + self[ii,jj,kk]
+                        folded[ns-ii-jj-kk,kk,jj] += self[ii,jj,kk]
+                        folded.data[ii,jj,kk] = 0
                         folded.mask[ii,jj,kk] = True
                     elif p > ns/2:
                         # Switch A/a, so AB -> aB, Ab -> ab, aB -> AB, and ab -> Ab
-                        folded[kk,ns-ii-jj-kk,ii] = self[kk,ns-ii-jj-kk,ii] + self[ii,jj,kk]
+                        folded[kk,ns-ii-jj-kk,ii] += self[ii,jj,kk]
+                        folded.data[ii,jj,kk] = 0
                         folded.mask[ii,jj,kk] = True
                     elif q > ns/2:
                         # Switch B/b, so AB -> Ab, Ab -> AB, aB -> ab, and ab -> aB
-                        folded[jj,ii,ns-ii-jj-kk] = self[jj,ii,ns-ii-jj-kk] + self[ii,jj,kk]
+                        folded[jj,ii,ns-ii-jj-kk] += self[ii,jj,kk]
+                        folded.data[ii,jj,kk] = 0
                         folded.mask[ii,jj,kk] = True
         
         folded.folded = True
